@@ -1,6 +1,7 @@
 import GqlModel.Ops.WireOps
 import GqlModel.Schema.Model
 import GqlModel.Schema.Spec
+import GqlModel.Schema.Merged
 /- driver op `load <S-expression of the merged SchemaDoc>` -/
 namespace Gql.Ops
 open Gql Gql.Load
@@ -47,6 +48,16 @@ def opClosed (args : List String) : String :=
     | none => "bad-tree"
     | some d => renderClauses (Spec.loadedClauses d)
 
-def loadOps : List (String × (List String → String)) := [("load", opLoad), ("wf", opWf), ("closed", opClosed)]
+/-- `merged <schemadoc sexp>`: verdict of every condition of `Spec.mergedClauses` (the hypothesis
+    `MergedDoc` of the completeness theorem) on a document the real parser merged -/
+def opMerged (args : List String) : String :=
+  match Sexp.parse (joinArgs args) with
+  | none => "bad-sexp"
+  | some s => match Wire.dSchemaDoc s with
+    | none => "bad-tree"
+    | some d => renderClauses (Spec.mergedClauses d)
+
+def loadOps : List (String × (List String → String)) :=
+  [("load", opLoad), ("wf", opWf), ("closed", opClosed), ("merged", opMerged)]
 
 end Gql.Ops
